@@ -98,6 +98,11 @@ def ops_for(ty):
     add('to_f32', 'P', 'f32', 'x.to_f32()', f'crate.{m}.convert.{T}.to_f32 x', f'some (Spec.toF32 {F} a)', 'C03')
     add('f64_From', 'P', 'f64', 'f64::from(x)', f'crate.{m}.convert.f64.From.from x', f'some (Spec.toF64 {F} a)', 'C03')
     add('f32_From', 'P', 'f32', 'f32::from(x)', f'crate.{m}.convert.f32.From.from x', f'some (Spec.toF32 {F} a)', 'C03')
+    # C03 round trips: posit -> f64 -> posit, and posit -> Display string -> FromStr (the crate prints / parses through f64; std's
+    # shortest-representation Display and correctly rounded parse compose to the identity on f64 — recorded as an assumption)
+    rt = f'(fun x => do let d ← crate.{m}.convert.f64.From.from x; crate.{m}.convert.{T}.From_f64.from d) x'
+    add('rt_f64', 'P', 'P', f'{T}::from(f64::from(x))', rt, 'some (a)', 'C03')
+    add('rt_str', 'P', 'P', f'x.to_string().parse::<{T}>().unwrap()', rt, 'some (a)', 'C03')
     # ---- C07 integers
     for k, w in INTS.items():
         sg = 'true' if k[0] == 'i' else 'false'
